@@ -838,6 +838,7 @@ class Directive:
         self.bytesconst = False
         self.execconst = None
         self.derivedefault = False
+        self.unmodelled = []
 
 
 def indent_of(sf, tokidx):
@@ -1314,6 +1315,12 @@ def render_item(d, it, repo_root, registry):
         hits = sum(1 for p in range(len(sigidx) - len(want) + 1) if [toks[sigidx[p + q]].text for q in range(len(want))] == want)
         if hits > n:
             raise ExtractError("anchor lost: %r occurs %d times in %s, the contract's oracle allows at most %d" % (txt, hits, it.name, n))
+    unmodelled_hits = []
+    for txt, labels in d.unmodelled:
+        want = [t.text for t in lex(txt) if t.kind not in TRIVIA]
+        sigidx = [k for k in range(it.body_open or a, it.body_close or b) if toks[k].kind not in TRIVIA]
+        if any([toks[sigidx[p + q]].text for q in range(len(want))] == want for p in range(len(sigidx) - len(want) + 1)):
+            unmodelled_hits.append({"construct": txt, "clauses": labels})
     if pre:
         ed.insert_before(it.first, pre)
     audit = {}
@@ -1322,7 +1329,7 @@ def render_item(d, it, repo_root, registry):
     pieces = render_tokens(sf, a, b, ed)
     registry.append({
         "closure_texts": audit.get("closure_texts", []), "new_unannotated_closures": audit.get("new_unannotated_closures", []),
-        "auto_contract_closures": audit.get("auto_contract_closures", []),
+        "auto_contract_closures": audit.get("auto_contract_closures", []), "unmodelled": unmodelled_hits,
         "mode": d.mode, "file": os.path.relpath(sf.path, repo_root), "item": d.query, "name": fname,
         "line": toks[it.first].line, "rules": dict(rule_hits), "cfg_true": cfg_t, "cfg_false": cfg_f,
         "clauses": [(c.kind, c.label, c.props) for c in d.clauses]
@@ -1374,7 +1381,7 @@ def render_item(d, it, repo_root, registry):
     return out
 
 
-OPTION_KW = ("ret", "req", "ens", "props", "loop", "closure", "rule", "attr", "dropattr", "canary", "rename", "prefix", "from", "upto", "uptosemi", "before", "tail", "block", "bytesconst", "count", "execconst", "derivedefault")
+OPTION_KW = ("ret", "req", "ens", "props", "loop", "closure", "rule", "attr", "dropattr", "canary", "rename", "prefix", "from", "upto", "uptosemi", "before", "tail", "block", "bytesconst", "count", "execconst", "derivedefault", "unmodelled")
 _lab_re = re.compile(r"^(req|ens|inv)(\[([^\]]+)\])?\s+(.*)$", re.S)
 
 
@@ -1491,6 +1498,13 @@ def parse_options(d, lines, unit_name):
             d.span_semi = True
         elif w == "bytesconst":
             d.bytesconst = True
+        elif w == "unmodelled":
+            # `unmodelled <token text> ## <label> <label> ..`: when the body contains the token sequence, the listed clauses talk
+            # about state the unit's model cannot follow through that construct (e.g. a direct write to a lock whose content the
+            # model changes only through a `&mut self` shim): their failure is then reported UNDECIDED, never as a violation;
+            # the other clauses of the function stay decisive
+            txt, labels = rest.split("##")
+            d.unmodelled.append((txt.strip(), labels.split()))
         elif w == "derivedefault":
             # for an enum with `#[derive(Default)]`: emit `impl Default` whose value is the variant the source marks `#[default]`
             d.derivedefault = True
